@@ -423,3 +423,44 @@ func Harness_C17_OneActiveTask() {
 	_, gerr := e.store.GetChannelMigrationTask(context.Background(), c17Ch, c17Type, c17Other)
 	zzsym.Assert(gerr != nil, "the refused second task is stored")
 }
+
+// Harness_C17_OneActiveTaskHistory: "at most one active task per channel" over a short history with
+// THREE task ids: task A is terminal, task B is created and active; then one more command is
+// accepted for the terminal task A (Advance / Claim with A's own guard and a terminal result
+// status - rewriting a terminal row), and then a third task C is offered: it must be refused while
+// B is active, and the channel's active task is B throughout.
+func Harness_C17_OneActiveTaskHistory() {
+	taskA := c17TaskRow()
+	zzsym.Assume(taskA.IsTerminal())
+	meta := ChannelRuntimeMeta{ChannelID: c17Ch, ChannelType: c17Type, Replicas: []uint64{1, 2, 3}, ISR: []uint64{1, 2, 3}, Leader: 1, MinISR: 2, ChannelEpoch: 1, LeaderEpoch: 1, RouteGeneration: 1}
+	e := c17Seed(taskA, meta)
+	ctx := context.Background()
+	taskB := ChannelMigrationTask{TaskID: c17Other, ChannelID: c17Ch, ChannelType: c17Type, Kind: ChannelMigrationKindLeaderTransfer,
+		Status: ChannelMigrationStatusPending, Phase: ChannelMigrationPhaseValidate, SourceNode: 1, TargetNode: 2, DesiredLeader: 2, UpdatedAtMS: 10}
+	wb := e.db.NewWriteBatch()
+	err := wb.CreateChannelMigrationTask(c17Slot, taskB)
+	if err == nil {
+		err = wb.Commit()
+	}
+	wb.Close()
+	zzsym.Assert(err == nil, "a task cannot be created although the channel's only other task is terminal")
+	active, found, aerr := e.store.GetActiveChannelMigrationTask(ctx, c17Ch, c17Type)
+	zzsym.Assert(aerr == nil && found && active.TaskID == c17Other, "the created task is not the channel's active task")
+	// one more command on the terminal task A, with A's own guard
+	second := 7 + zzsym.Choice("second.cmd", 2)
+	_ = c17Apply(e, second, c17GuardOf(taskA), c17RuntimeGuardOf(meta))
+	zzsym.Reach("terminal-rewritten")
+	active, found, aerr = e.store.GetActiveChannelMigrationTask(ctx, c17Ch, c17Type)
+	zzsym.Assert(aerr == nil && found && active.TaskID == c17Other, "a command on a terminal task made the channel lose its active task")
+	taskC := taskB
+	taskC.TaskID = "t3"
+	wb2 := e.db.NewWriteBatch()
+	cerr := wb2.CreateChannelMigrationTask(c17Slot, taskC)
+	if cerr == nil {
+		cerr = wb2.Commit()
+	}
+	wb2.Close()
+	zzsym.Assert(cerr != nil, "a second active migration task was created for the channel after a terminal task was rewritten")
+	_, gerr := e.store.GetChannelMigrationTask(ctx, c17Ch, c17Type, "t3")
+	zzsym.Assert(gerr != nil, "the refused third task is stored")
+}
